@@ -26,6 +26,9 @@ def run(ctx: core.Ctx) -> None:
     chosen = accepted[:budget]
     sim = [r for r in sc.simulate_layer(ctx, 'fortran_sim', 400 if quick else 6000) if r['reject'] == 'none']
     chosen += sim[: (80 if quick else 1500)]
+    progs = sc.compose_long([r for r in accepted[:400]], ctx.seed, 40 if quick else 600)
+    long_ = [r for r in sc.judge_programs(ctx, progs, 'long') if r['reject'] == 'none']
+    chosen += long_
     workdir = str(core.subdir('fortran'))
     payloads = [{'records': ch, 'workdir': workdir, 'seed': ctx.seed, 'base': i * 100000, 'namemap': 'plain', 'option_sets': 4 if quick else 8}
                 for i, ch in enumerate(core.chunks(chosen, core.NCPU * 2))]
